@@ -47,7 +47,7 @@ add("C07", TV,
     "G-tab on the minimised automata the real generator writes (generated parser source, and the export model): completeness (unsat required: every production applied in any sentence <= N is the one the automaton predicts within its declared k), exactness (every accepting path justified by a sentence <= N; semi-decided, unjustified paths are reported not alarmed) and the structural contract (sorted, deterministic, dense, accepting states are leaves, depth <= k <= MAX_K, predicted productions belong to the non-terminal).",
     G_NOTE, "LL(k) table validity encoded in SMT (z3) over all sentences <= N per grammar and lookahead limit", "DESIGN.md §4 C07")
 add("C08", "model_checking",
-    "Bounded model checking (Kani/CBMC) of the real LookaheadDFA::eval against a reference walk for a SYMBOLIC transition table (<= 6 transitions, <= 5 states, k <= 3, satisfying the generator contract that C07 checks on real tables) and all lookahead buffers of arbitrary u16 token types: Ok(p) iff the buffer begins with a path to a state accepting p, else a prediction error; no token is skipped.",
+    "Bounded model checking (Kani/CBMC) of the real LookaheadDFA::eval against a reference walk: (a) every lookahead automaton that the freshly built parol generates for 10 committed grammars (concrete tables, 4 symbolic tokens); (b) SYMBOLIC transition tables satisfying the generator contract that C07 checks on real tables - quick: <= 4 transitions / <= 4 states / k <= 2 and <= 3 transitions / <= 4 states / k <= 3; thorough adds <= 6 transitions / <= 5 states / k <= 3 (reported as not reached if the solver does not finish) - with all lookahead buffers of arbitrary u16 token types: Ok(p) iff the buffer begins with a path to a state accepting p, else a prediction error; no token is skipped.",
     K_NOTE + "; TokenStream::lookahead_token_type is stubbed by a cursor over a symbolic array (the real stream pads to k tokens with EOI); counterexamples are replayed natively on a real TokenStream",
     "SAT-based bounded model checking of compiled Rust (Kani), symbolic automaton + symbolic tokens, native replay through a real scnr2 TokenStream", "DESIGN.md §4 C08")
 add("C09", TV,
